@@ -567,10 +567,27 @@ func (e *Explorer) replayOnce(w *worker, n *node, id int32, deadline time.Durati
 			}
 		}
 	}
+	if e.S.NewMons != nil && checkCleanupCollision && s.D.Mode != "off" {
+		// managed modes: one Note Off per sounding (channel, pitch), however many keys hold it when the device goes away
+		seen := map[[2]byte]int{}
+		for _, m := range all[n1:] {
+			if len(m) == 3 && (m[0]&0xf0 == 0x80 || (m[0]&0xf0 == 0x90 && m[2] == 0)) {
+				seen[[2]byte{m[0] & 0x0f, m[1]}]++
+			}
+		}
+		for k, n := range seen {
+			if n > 1 {
+				e.Res.Violate("cleanup-collision-rule", s.D.Name+"/"+s.D.Mode, fmt.Sprintf("mode %s: the disconnect clean-up sent %d Note Offs for ch%d/%d (exactly one is due, at the end of the last holder)", s.D.Mode, n, k[0]+1, k[1]),
+					map[string]interface{}{"scenario": s.D.Name, "mode": s.D.Mode, "history": hist, "cleanup_output": msgStrings(all[n1:]), "toml": s.D.TOML()})
+				break
+			}
+		}
+	}
 	return true
 }
 
 var checkDisconnect = true
+var checkCleanupCollision = false
 
 func safeStep(d *device.Device, in *input.InputEvent) (p string) {
 	defer func() {
